@@ -170,6 +170,10 @@ def call_builtin(eng, name, args, kwargs, st, node):
             return [(st, vint(ln))]
         if v.k == 'seq':
             return [(st, vint(v.extra['len']))]
+        if v.k == 'obj' and eng.contract.opts.get('opaque_algebra'):
+            n = eng.fresh('len', z3.IntSort())
+            st.pc.append(n >= 0)
+            return [(st, vint(n))]
         h = eng.contract.hooks.get('len')
         if h:
             r = h(eng, v, st, node)
@@ -237,6 +241,8 @@ def call_builtin(eng, name, args, kwargs, st, node):
         items = eng.static_items(args[0])
         if items is not None:
             return [(st, V(name, items=list(items)))]
+        if args[0].k == 'obj' and eng.contract.opts.get('opaque_algebra'):
+            return [(st, V('obj', oid='%s!%d' % (name, next(eng.counter))))]
         h = eng.contract.hooks.get('to_' + name)
         if h:
             r = h(eng, args[0], st, node)
@@ -419,6 +425,13 @@ def call_ext(eng, mod, name, args, kwargs, st, node):
                 else:
                     outs.append((st1, Raised(eng.make_exc('OverflowError', node=node))))
             return outs
+    if ('%s.%s' % (mod, name)) in eng.contract.opts.get('opaque_ext', ()):
+        st.trace.append(('ext', '%s.%s' % (mod, name), tuple(args)))
+        res = [(st, V('obj', oid='new!%s.%s!%d' % (mod, name, next(eng.counter))))]
+        if eng.contract.opts.get('opaque_algebra'):
+            bad = st.fork()
+            res.append((bad, Raised(eng.make_exc('TypeError', node=node))))
+        return res
     if mod == 'inspect' or mod == 'logging':
         raise Unsupported(node, '%s.%s' % (mod, name))
     h = eng.contract.hooks.get('ext')
